@@ -63,6 +63,10 @@ def run(ctx):
             if reported < 3:
                 reported += 1
                 import re
+                if l.startswith("fillrace="):
+                    violation(ctx, "cache property fails on the implementation under concurrent fills: " + l,
+                              "# re-run: harness/target/release/cache --seed %d --tier %s --out DIR cases=0\n# %s\n" % (ctx.seed * 1000 + outs.index(o), ctx.tier, l), tag="fillrace")
+                    continue
                 n = int(re.search(r"line=(\d+)", l).group(1))
                 case = case_of(o["ops"], min(n, len(o["ops"]) - 1))
                 violation(ctx, "cache property fails on the implementation: " + l, "".join(x + "\n" for x in case) + "# " + l + "\n")
